@@ -212,6 +212,40 @@ def decode_blocks(bline, ofs):
     return d
 
 
+def with_faults(ctx, L, ops, meta):
+    """second pass of a history: before some of its read calls the device starts refusing to read one or two blocks of the file
+    (numbers learnt from a first, fault-free run), and stops again after the call - the fault model `bad` of Model/FileIO.v;
+    only read calls run under a fault (the OFS fallback seek that a failed seek triggers is not in the model)"""
+    rng = ctx.rng
+    rc, out, err, wd = common.run_script(ctx, "\n".join(L) + "\n")
+    per = alog_by_mark(os.path.join(wd, "alog"))
+    blocks = sorted({int(x) for ans in per.values() for a in ans for x in a.split(":")[1:] if x.lstrip("-").isdigit() and int(x) > 1})
+    if rc != 0 or not blocks:
+        return L, ops, meta
+    L2, k = [], 0
+    shift = {}
+    for i, l in enumerate(L, 1):
+        op = next((o for o in ops if o["line"] == i), None)
+        faulty = op is not None and op["kind"] == "read" and rng.random() < 0.6
+        if faulty:
+            victims = rng.sample(blocks, min(len(blocks), rng.choice([1, 1, 2, 6])))
+            L2 += ["badblk %d" % b for b in victims]
+            op["bad"] = victims
+        shift[i] = len(L2) + 1
+        L2.append(l)
+        if faulty:
+            L2.append("badblk clear")
+    # renumber: hstate / fblks lines follow their call at fixed distance; "badblk clear" sits between the call and hstate
+    ops2 = []
+    for o in ops:
+        o2 = dict(o)
+        o2["line"], o2["hline"], o2["bline"] = shift[o["line"]], shift[o["hline"]], shift[o["bline"]]
+        ops2.append(o2)
+    meta2 = dict(meta)
+    meta2["faults"] = sum(1 for o in ops2 if o.get("bad"))
+    return L2, ops2, meta2
+
+
 def run_one(ctx, L, ops, meta):
     """returns None or a failure tuple (kind, what, detail dict, expected, actual)"""
     bs, ofs = meta["bs"], not (meta["flavour"] & 1)
@@ -241,7 +275,12 @@ def run_one(ctx, L, ops, meta):
             t = o["text"].split()
             ML.append("write %s %s %s" % (t[2], t[3], " ".join(ans)))
         elif k == "read":
+            if o.get("bad"):
+                ML += ["bad %d" % b for b in o["bad"]]
             ML.append("read %d" % o["n"])
+            if o.get("bad"):
+                ML += ["good %d" % b for b in o["bad"]]
+                ctx.bump("fileio_reads_under_fault")
         elif k == "seek":
             ML.append("seek %d" % o["p"])
         elif k == "trunc":
@@ -331,11 +370,14 @@ def run_one(ctx, L, ops, meta):
     return None
 
 
-def run(ctx, n):
+def run(ctx, n, fault_every=4):
     cases = []
-    for _ in range(n):
+    for i in range(n):
         L, ops, meta = history(ctx.rng)
-        cases.append((expand_fill(ctx, L), ops, meta))
+        L = expand_fill(ctx, L)
+        if i % fault_every == fault_every - 1:
+            L, ops, meta = with_faults(ctx, L, ops, meta)
+        cases.append((L, ops, meta))
     bad = 0
     for (c, r) in zip(cases, common.pmap(lambda c: run_one(ctx, *c), cases)):
         ctx.bump("fileio_histories")
